@@ -1,6 +1,6 @@
 (* C08 — Network-layer headers and messages encode and decode faithfully.
    Property theorems only; proofs live in Bac.NpciFacts / Bac.NpciMsgFacts, the model in Bac.Npci. *)
-From Bac Require Import Base Npci NpciFacts NpciMsgFacts.
+From Bac Require Import Base Npci NpciFacts NpciMsgFacts NpciSound.
 Open Scope N_scope.
 
 (* every well-formed header (version 1, priority < 4, nets < 65535, MACs of 1..255 octets, hop count
@@ -52,6 +52,17 @@ Print Assumptions C08_refuses_truncated.
 Theorem C08_decode_error_class : forall bs e, dec_npci bs = Err e -> e = DecodingError.
 Proof. exact dec_npci_only. Qed.
 Print Assumptions C08_decode_error_class.
+
+(* no misreading: whatever octets the decoder accepts (reserved control bits 6 and 4 clear, and DLEN = 0
+   when DNET = 0xFFFF — the two places where clause 6.2 leaves non-canonical input possible) are exactly
+   the clause 6.2 layout of the fields it returns followed by the payload it returns, and those fields
+   are well-formed; so decoding is the inverse of the layout, not merely a left inverse of the encoder *)
+Theorem C08_decode_sound : forall bs c h r,
+  bytes_ok bs = true -> dec_npci bs = Ok (c, h, r) ->
+  N.land c 0x50 = 0 -> (dadr h = Some GBroadcast -> nth 4 bs 0 = 0) ->
+  wf_npci h = true /\ spec_control h = c /\ bs = spec6_2 h ++ r.
+Proof. exact dec_npci_sound. Qed.
+Print Assumptions C08_decode_sound.
 
 (* ---- the twelve messages: parameters round-trip (networks < 65536, octets < 256, lists of any
    length, tables of < 256 entries with port-info of < 256 octets) *)
